@@ -454,6 +454,7 @@ func TestVerif_C22_Loads(t *testing.T) {
 }
 
 func c22Case(rt *rapid.T, rec *vstat.Rec) {
+	g8aNextCase()
 	base, err := os.MkdirTemp("", "c22")
 	if err != nil {
 		rt.Skip("tempdir")
